@@ -3,7 +3,7 @@
    from the struct tags, the generated easyjson encoders and the MarshalJSON/ID methods of
    pkg/scan/{arp,tcp,icmp,socks5,elastic,docker} on every run. *)
 From Coq Require Import ZArith Bool Ascii String List.
-From SX Require Import Base.Bytes Model.Json Gen.Schemas Proofs.JsonProofs.
+From SX Require Import Base.Bytes Model.Json Gen.Schemas Gen.UniqLoop Proofs.JsonProofs.
 Import ListNotations.
 Open Scope Z_scope.
 
@@ -108,6 +108,13 @@ Proof.
   - intros r Hr. destruct (C r Hr) as [H|H]; [discriminate|exact H].
 Qed.
 
+(* the real loop (Gen.UniqLoop, translated from uniqResults on every run) has the shape of
+   [uniq_run]: the set of seen IDs is keyed by STRINGS and the key of a received result is exactly
+   result.ID() -- no digest, prefix or other derived (lossy) key --, membership is tested before
+   the insertion, and the received result itself is what is forwarded *)
+Theorem C14_uniq_loop_shape : uniq_loop_ok uniq_loop = true.
+Proof. vm_compute. reflexivity. Qed.
+
 (* what the live ARP scan de-duplicates on is the printed address *)
 Theorem C14_arp_id_is_ip : forall ip mac vendor,
   result_id arp_schema [VS (VStr ip); VS (VStr mac); VS (VStr vendor)] = ip.
@@ -159,4 +166,5 @@ Print Assumptions C14_one_line.
 Print Assumptions C14_order.
 Print Assumptions C14_order_complete.
 Print Assumptions C14_uniq.
+Print Assumptions C14_uniq_loop_shape.
 Print Assumptions C14_arp_id_is_ip.
